@@ -202,6 +202,8 @@ NAMES = {
     'rel': ('app.js', 'app.js.map', 'src/app.src.js'),
     'missing': (MISSING, MISSING, MISSING),
     'mixed': ('/tmp/build/out/app.js', 'app.js.map', '/tmp/src/lib/app.src.js'),
+    'reldirs': ('build/app.js', 'build/maps/app.js.map', 'src/app.src.js'),
+    'relsub': ('build/app.js', 'build/app.js.map', 'build/app.src.js'),
     'dots': ('/tmp/build/./out/../out/app.js', '/tmp/build/maps/x/../app.js.map', '/tmp/src/../src/lib/app.src.js'),
 }
 
@@ -520,8 +522,10 @@ class SymEval(object):
         from calmjs.parse import sourcemap
         n = proto.parse(s[1:])
         k = n.kind
-        if k == 'normrel':
-            return normrel_indep(self(n.get('b')), self(n.get('t')))
+        if k == 'relpath':
+            b, t = self(n.get('b')), self(n.get('t'))
+            assert b.startswith('/') and t.startswith('/'), (b, t)     # the model guards relpath by isabs
+            return normrel_indep(b, t)
         if k == 'mappings':
             return self.triple[0]
         if k == 'names':
@@ -643,6 +647,31 @@ def judge_propagation(run, relabel_name=None):
     return bad
 
 
+KF18A = 'KF-18a'
+
+
+def designation(container, rel, target, what):
+    """Does the path `rel`, found inside the file `container`, designate `target`?  Returns a complaint or None.
+    Complaints of the class of finding KF-18a (not both names absolute: normrelpath leaves the name verbatim,
+    i.e. relative to the current directory instead of to `container`) are prefixed with its id."""
+    both_abs = container.startswith('/') and target.startswith('/')
+    if rel.startswith('/'):
+        if both_abs:
+            return '%s %r is not relative' % (what, rel)
+        if target.startswith('/') and posixpath.normpath(rel) == posixpath.normpath(target):
+            return None
+        return '%s: %s %r does not designate %r' % (KF18A, what, rel, target)
+    if both_abs:
+        if resolve(container, rel) != posixpath.normpath(target):
+            return '%s %r resolves from %r to %r, not to %r' % (what, rel, container, resolve(container, rel), target)
+        return None
+    if not container.startswith('/') and not target.startswith('/') and \
+            resolve(container, rel) == posixpath.normpath(target):
+        return None
+    return '%s: %s %r found in %r designates %r, not %r (names not both absolute are written verbatim)' % (
+        KF18A, what, rel, container, resolve(container, rel), target)
+
+
 URL_RE = re.compile(r'\A\n//# sourceMappingURL=(.*)\n\Z', re.S)
 DATA_RE = re.compile(r'\A\n//# sourceMappingURL=data:application/json;base64;charset=([^,]*),([A-Za-z0-9+/=]*)\Z')
 
@@ -671,11 +700,12 @@ def check_map_doc(doc, case, triple, out_name, map_name, bad):
     mn = 'about:invalid' if map_name is MISSING else map_name
 
     def designates(rel, target, what):
-        if case['normP'] and mn.startswith('/') and target.startswith('/'):
-            if rel.startswith('/'):
-                bad.append('%s %r is not relative' % (what, rel))
-            if resolve(mn, rel) != posixpath.normpath(target):
-                bad.append('%s %r resolves from %r to %r, not to %r' % (what, rel, mn, resolve(mn, rel), target))
+        if not isinstance(rel, str):
+            bad.append('%s is %r' % (what, rel))
+        elif case['normP'] and 'about:invalid' not in (mn, target):
+            c = designation(mn, rel, target, what)
+            if c:
+                bad.append(c)
         elif rel != target:
             bad.append('%s %r != %r' % (what, rel, target))
     designates(doc.get('file'), on, 'map.file')
@@ -738,9 +768,10 @@ def judge_write(run, low):
                         bad.append('explicit URL not used: %r' % m.group(1))
                 else:
                     url = m.group(1)
-                    if case['normP'] and on.startswith('/') and mn.startswith('/'):
-                        if url.startswith('/') or resolve(on, url) != posixpath.normpath(mn):
-                            bad.append('URL %r does not lead from %r to %r' % (url, on, mn))
+                    if case['normP'] and 'about:invalid' not in (on, mn):
+                        c = designation(on, url, mn, 'sourceMappingURL')
+                        if c:
+                            bad.append(c)
                     elif url != mn:
                         bad.append('URL %r != map stream name %r' % (url, mn))
             try:
@@ -822,16 +853,18 @@ def write_cases(ctx, programs):
     for pi, text in enumerate(programs):
         for out in outs:
             for sm in sms:
-                # every arrangement gets, per program, a rotating choice of the secondary dimensions ...
+                # every arrangement gets, per program, a rotating choice of the secondary dimensions; the
+                # first program(s) get the cross product
                 variants = []
-                if quick:
-                    variants.append((name_keys[n % len(name_keys)], urls[n % 3], True, True))
-                    if pi == 0:
+                for j in range(ctx.n(1, 3)):
+                    variants.append((name_keys[(n + j) % len(name_keys)], urls[(n + j) % 3], (n + j) % 4 != 3, (n + j) % 5 != 4))
+                if pi == 0:
+                    if quick:
                         variants += [(nk, 'default', True, True) for nk in name_keys]
                         variants += [('abs', u, np_, nm) for u in urls for np_ in (True, False) for nm in (True, False)]
-                else:
-                    variants += [(nk, u, np_, True) for nk in name_keys for u in urls for np_ in (True, False)]
-                    variants += [('abs', 'default', True, False), ('rel', 'default', False, False)]
+                    else:
+                        variants += [(nk, u, np_, True) for nk in name_keys for u in urls for np_ in (True, False)]
+                        variants += [('abs', 'default', True, False), ('rel', 'default', False, False)]
                 for (nk, url, normP, normM) in sorted(set(variants), key=repr):
                     n += 1
                     c = dict(kind='write', items=[{'t': text}], shape='single', printer=PRINTERS[n % 2],
@@ -922,7 +955,7 @@ def case_key(case, faults):
 def explore(ctx, cases, stats):
     """for every case: fault-free run, then every fault point; returns (judge_failures, tie_differences)"""
     judge_fail, tie_diff = [], []
-    drv = Client(ctx.driver('drv_io'))
+    drv = Client(ctx.driver('drv_io')) if getattr(ctx, 'drivers_ok', True) else None
     for case in cases:
         low = None
         if case['kind'] == 'write':
@@ -943,7 +976,7 @@ def explore(ctx, cases, stats):
         if len(pts) >= 2:
             a, b = pts[len(pts) // 3], pts[(2 * len(pts)) // 3]
             examine(ctx, case, [(a[0], a[1], 'IOError', 'first'), (b[0], b[1], 'ValueError', 'second')], low, lines, pending)
-        replies = drv.ask_many(lines)
+        replies = drv.ask_many(lines) if drv is not None else [None] * len(lines)
         for (c, faults, run, ev, bad), reply in zip(pending, replies):
             ctx.case(case_key(c, faults))
             stats['runs'] += 1
@@ -959,8 +992,14 @@ def explore(ctx, cases, stats):
             if not faults:
                 ctx.bump('fault:none')
             ctx.bump('outcome:' + ('ok' if run.exc is None else type(run.exc).__name__))
+            kf = [b for b in bad if b.startswith(KF18A)]
+            bad = [b for b in bad if not b.startswith(KF18A)]
+            if kf:
+                stats.setdefault('kf', []).append((c, faults, kf))
             if bad:
                 judge_fail.append((c, faults, bad))
+            if reply is None:
+                continue        # driver not built: the judge alone decides (the build obligation already failed)
             try:
                 mv = model_view(reply, ev)
             except Exception as e:    # malformed reply
@@ -998,6 +1037,92 @@ def pick_programs(ctx, label, n, maxlen):
     return chosen[:n]
 
 
+def real_file_judge(ctx, programs):
+    """judge only: real files in a temporary directory (absolute and relative names through real os.path)"""
+    import os
+    import shutil
+    import tempfile
+    from calmjs.parse import io as cio, sourcemap
+    from calmjs.parse.parsers import es5
+    bad = []
+    d = tempfile.mkdtemp(prefix='calmverif-c18-')
+    cwd = os.getcwd()
+    try:
+        os.makedirs(os.path.join(d, 'src'))
+        os.makedirs(os.path.join(d, 'build', 'maps'))
+        for i, text in enumerate(programs):
+            for absolute in (True, False):
+                for mode in ('factory', 'open', 'same'):
+                    os.chdir(d)
+                    base = d if absolute else ''
+                    src = os.path.join(base, 'src', 'p%d.js' % i)
+                    out = os.path.join(base, 'build', 'p%d.min.js' % i)
+                    mp = os.path.join(base, 'build', 'maps', 'p%d.min.js.map' % i)
+                    with open(src, 'w') as f:
+                        f.write(text)
+                    opened = []
+
+                    def opener(path, m, opened=opened):
+                        def f():
+                            h = open(path, m)
+                            opened.append(h)
+                            return h
+                        return f
+                    tree = cio.read(es5.parse, opener(src, 'r'))
+                    if tree.sourcepath != src:
+                        bad.append('real file: sourcepath %r != %r' % (tree.sourcepath, src))
+                    if not all(h.closed for h in opened):
+                        bad.append('real file: read left the source open')
+                    printer = get_printer(PRINTERS[i % 2])
+                    expected = ''.join(c[0] for c in get_printer(PRINTERS[i % 2])(tree))
+                    triple = sourcemap.write(get_printer(PRINTERS[i % 2])(tree), Sink())
+                    del opened[:]
+                    passed = []
+                    if mode == 'factory':
+                        cio.write(printer, tree, opener(out, 'w'), opener(mp, 'w'))
+                    elif mode == 'open':
+                        passed = [open(out, 'w'), open(mp, 'w')]
+                        cio.write(printer, tree, passed[0], passed[1])
+                    else:
+                        fo = opener(out, 'w')
+                        cio.write(printer, tree, fo, fo)
+                    if not all(h.closed for h in opened):
+                        bad.append('real file: write left a factory stream open (%s)' % mode)
+                    if any(h.closed for h in passed):
+                        bad.append('real file: write closed a passed-in stream')
+                    for h in passed:
+                        h.close()
+                    got = open(out).read()
+                    if not got.startswith(expected):
+                        bad.append('real file: output does not start with printer text')
+                        continue
+                    rest = got[len(expected):]
+                    case = dict(normP=True)
+                    if mode == 'same':
+                        m = DATA_RE.match(rest)
+                        if not m:
+                            bad.append('real file: no data URL: %r' % rest[:80])
+                            continue
+                        doc = _json.loads(_base64.b64decode(m.group(2)).decode(m.group(1)))
+                        check_map_doc(doc, case, triple, out, out, bad)
+                    else:
+                        m = URL_RE.match(rest)
+                        if not m:
+                            bad.append('real file: no URL comment: %r' % rest[:80])
+                            continue
+                        target = os.path.normpath(os.path.join(os.path.dirname(out), m.group(1)))
+                        if os.path.realpath(target) != os.path.realpath(mp):
+                            bad.append('%sreal file: URL %r does not lead from %r to %r' % (
+                                '' if absolute else KF18A + ': ', m.group(1), out, mp))
+                        check_map_doc(_json.load(open(mp)), case, triple, out, mp, bad)
+                    ctx.case(('realfile', text, absolute, mode))
+                    ctx.bump('realfile:%s,%s' % (mode, 'abs' if absolute else 'rel'))
+    finally:
+        os.chdir(cwd)
+        shutil.rmtree(d, True)
+    return bad
+
+
 def run(ctx):
     import corpus
     import logging
@@ -1016,8 +1141,8 @@ def run(ctx):
         'a stream returned by the source-map factory is a different object from the output stream',
     ]
     stats = dict(runs=0)
-    nprog = ctx.n(4, 24)
-    programs = pick_programs(ctx, 'programs', nprog, ctx.n(60, 400))
+    nprog = ctx.n(8, 32)
+    programs = pick_programs(ctx, 'programs', nprog, ctx.n(120, 300))
     wcases = write_cases(ctx, programs)
     rvalid = pick_programs(ctx, 'read-valid', ctx.n(3, 12), 200)
     rng = ctx.sub_rng('read-invalid')
@@ -1029,9 +1154,48 @@ def run(ctx):
     jf_w, td_w = explore(ctx, wcases, stats)
     jf_r, td_r = explore(ctx, rcases, stats)
     judge_fail = jf_w + jf_r
+    rf_all = real_file_judge(ctx, programs[:ctx.n(3, 10)])
+    rf_bad = [b for b in rf_all if not b.startswith(KF18A)]
+    rf_kf = [b for b in rf_all if b.startswith(KF18A)]
+    ctx.obligation('judge:real files (open(), os.path) closed / text / URL resolves', not rf_bad, 'judge', '; '.join(rf_bad[:5]))
+    if rf_bad:
+        ctx.violation('C18 judge on real files: %s' % rf_bad[0], dict(realfile=True, complaints=rf_bad[:10],
+                      programs=programs[:ctx.n(3, 10)]), True)
     tie_diff = td_w + td_r
     ctx.note('cases: %d write arrangements, %d read arrangements, %d runs of the real helpers' % (
         len(wcases), len(rcases), stats['runs']))
+
+    # ---- known finding KF-18a (same class predicate as the hypothesis of `url_verbatim_unless_both_absolute`:
+    #      the two stream names are not both absolute)
+    kf_hits = sorted(stats.get('kf', []), key=lambda x: (len(x[1]), case_size(x[0])))
+    registered = set(e.get('id') for e in ctx.known_findings)
+    for e in ctx.known_findings:
+        w = e.get('witness')
+        if e.get('id') == KF18A and isinstance(w, dict) and 'case' in w:
+            wc = w['case']
+            _, items = build_nodes(wc)
+            r = WriteRun(wc, [])
+            wb = judge_write(r, lowlevel(wc, items))
+            ctx.case(case_key(wc, ()))
+            if not any(b.startswith(KF18A) for b in wb):
+                ctx.note('%s: the registered witness no longer fails (%r)' % (KF18A, wb))
+            else:
+                kf_hits.append((wc, [], [b for b in wb if b.startswith(KF18A)]))
+    if kf_hits or rf_kf:
+        what = ('sourceMappingURL / map.file / map.sources are written verbatim (relative to the current directory, not '
+                'to the file that contains them) when the two stream names are not both absolute: %d runs with doubles, '
+                '%d with real files; e.g. %s' % (len(kf_hits), len(rf_kf), (kf_hits[0][2][0] if kf_hits else rf_kf[0])[:300]))
+        if KF18A in registered:
+            ctx.known(KF18A, what)
+        elif kf_hits:
+            c, faults, kb = kf_hits[0]
+            ctx.violation('C18 judge: %s [%s]' % (kb[0], summary(c, faults)),
+                          dict(case=c, faults=[list(f) for f in faults], complaints=kb, finding=KF18A), True)
+            ctx.obligation('judge:sourceMappingURL designates the map (finding %s not registered in known_findings.json)' % KF18A,
+                           False, 'judge', what)
+        else:
+            ctx.violation('C18 judge on real files: %s' % rf_kf[0], dict(realfile=True, complaints=rf_kf[:10],
+                          programs=programs[:ctx.n(3, 10)], finding=KF18A), True)
 
     # ---- verdict
     reported = set()
